@@ -232,7 +232,13 @@ class ModbusRtuFramer(ModbusFramer):
                 # keep it and wait for the rest
                 _logger.debug("Frame - [{}] not ready".format(data))
                 break
-            if self.isFrameReady() and self.checkFrame():
+            try:
+                frame_ok = self.isFrameReady() and self.checkFrame()
+            except (IndexError, KeyError, struct.error):
+                # the size of the frame cannot even be worked out from what
+                # has to be a complete frame by now: garbage
+                frame_ok = False
+            if frame_ok:
                 if self._validate_unit_id(unit, single):
                     self._process(callback)
                 else:
@@ -335,10 +341,17 @@ class ModbusRtuFramer(ModbusFramer):
         Process incoming packets irrespective error condition
         """
         data = self.getRawFrame() if error else self.getFrame()
-        result = self.decoder.decode(data)
-        if result is None:
-            raise ModbusIOException("Unable to decode request")
-        elif error and result.function_code < 0x80:
+        try:
+            result = self.decoder.decode(data)
+            if result is None:
+                raise ModbusIOException("Unable to decode request")
+        except Exception:
+            # whatever is wrong with this frame, it must not block the
+            # frames that follow it
+            if not error:
+                self.advanceFrame()
+            raise
+        if error and result.function_code < 0x80:
             raise InvalidMessageReceivedException(result)
         else:
             self.populateResult(result)
